@@ -231,6 +231,11 @@ def graphs(draw, max_triples=10, xml_safe=False, noncanon=False, invalid=False, 
         if draw(st.booleans()):
             triples.append([B(4, "t"), ["u", "urn:p"], ["l", "unreferenced", None, None]])
         feats.add("bnode-tree")
+    if k == 8:
+        # anonymous class: a blank node that is only referenced as the object of rdf:type and has properties of its own
+        triples += [[["u", "urn:s"], TYPE, B(0, "c")], [B(0, "c"), ["u", "http://www.w3.org/2000/01/rdf-schema#label"], ["l", "anon", None, None]],
+                    [B(0, "c"), TYPE, ["u", "http://www.w3.org/2002/07/owl#Restriction"]]]
+        feats.add("bnode-as-type")
     # dedupe preserving order
     seen, outl = set(), []
     for t in triples:
